@@ -9,7 +9,7 @@ ST_RESP, ST_CONF, ST_ERR, ST_NOTICE = 3, 4, 5, 6
 
 
 class HA:
-    def __init__(self, sess, rng, r, nep, kind='sign', label=''):
+    def __init__(self, sess, rng, r, nep, kind='sign', label='', cache=4):
         self.s, self.rng, self.r, self.nep, self.kind, self.label = sess, rng, r, nep, kind, label
         c = sess.cmd
         self.now = 1700000000
@@ -21,7 +21,8 @@ class HA:
             q = c('async_endpoint 0 add ksi+tcp://%s:1 anon anon' % h)
             if q.rc != 0:
                 raise RuntimeError('addEndpoint rc=%#x' % q.rc)
-        c('async_opt 0 cache_size 4')
+        if cache != 1:
+            c('async_opt 0 cache_size %d' % cache)
         c('async_opt 0 max_request_count 1000')
         for o in ('snd_timeout', 'rcv_timeout', 'con_timeout'):
             c('async_opt 0 %s 10' % o)
@@ -180,6 +181,102 @@ def scenario_requests(sess, rng, r, nep, plan, label):
     c('async_free 0')
 
 
+def scenario_cachefull(sess, rng, r, nep, silent, r2_outcomes, order, label):
+    """per-endpoint 'cache full': endpoints in `silent` never answer request R1 and keep their single cache slot, the others
+    answer it validly; request R2 is then refused by the silent endpoints and forwarded to the others only, which produce
+    r2_outcomes (dict endpoint -> outcome) in arrival order `order`. R2 must still be completed exactly once."""
+    ha = HA(sess, rng, r, nep, 'sign', label, cache=1)
+    c = sess.cmd
+    h1 = R.H(1, b'r1/' + label.encode())
+    h2 = R.H(1, b'r2/' + label.encode())
+    q = c('async_add 0 0 sign %s 0 u1' % h1.hex())
+    if q.rc != 0:
+        ha.viol('add-refused:rc=%#x' % q.rc, 'first request refused')
+        c('async_free 0')
+        return
+    returned = []
+    reqs = {}
+    finished2 = {}
+
+    def pump(n=2):
+        for _ in range(n):
+            ha.tick()
+            q = ha.run()
+            if q.get('handle') == '1' and q.get('tag') in ('u1', 'u2') and int(q['state']) in (ST_RESP, ST_ERR):
+                returned.append((q.get('tag'), int(q['state']), q.get('sig'), int(q.get('herr', 0)), dict(finished2)))
+            for i, host in enumerate(ha.hosts):
+                for info, rq in ha.requests_on(host):
+                    reqs.setdefault(rq.get('hash'), {})[i] = (info, rq)
+    pump(3)
+    for i in range(nep):
+        if i in silent:
+            continue
+        got = reqs.get(h1, {}).get(i)
+        if not got:
+            ha.viol('request-not-forwarded', 'endpoint %d did not receive the first request' % (i + 1))
+            c('async_free 0')
+            return
+        s1 = gen.gen_signature(random.Random('%s/1/%d' % (label, i)), first_corr=0, with_cal=False, rfc=False, doc_imprint=h1, time=1500000000, nchains=1)
+        c('net_push %d %s' % (got[0]['fd'], S.aggr_response(got[1], s1, KEY).hex()))
+        pump(2)
+    if not [x for x in returned if x[0] == 'u1' and x[1] == ST_RESP]:
+        ha.viol('cachefull:first-request-not-completed', 'R1 was answered validly by endpoint(s) %s but not returned with a response' % [i + 1 for i in range(nep) if i not in silent])
+        c('async_free 0')
+        return
+    q = c('async_add 0 0 sign %s 0 u2' % h2.hex())
+    ha.trace.append('add u2 -> rc=%#x' % q.rc)
+    if q.rc != 0:
+        ha.viol('cachefull:second-request-refused:rc=%#x' % q.rc, 'R2 refused although endpoint(s) %s have a free slot' % [i + 1 for i in range(nep) if i not in silent])
+        c('async_free 0')
+        return
+    pump(3)
+    accepting = sorted(reqs.get(h2, {}))
+    if any(i in silent for i in accepting):
+        r.count('silent_endpoint_accepted_second_request')
+    elif accepting:
+        r.count('ha_partial_forward_scenarios')
+    sigs = {}
+    for i in [x for x in order if x in accepting]:
+        o = r2_outcomes.get(i, 'timeout')
+        info, rq = reqs[h2][i]
+        ha.trace.append('u2 ep%d:%s' % (i + 1, o))
+        if o == 'valid':
+            s2 = gen.gen_signature(random.Random('%s/2/%d' % (label, i)), first_corr=0, with_cal=False, rfc=False, doc_imprint=h2, time=1500000000, nchains=1)
+            sigs[i] = s2.enc().hex()
+            c('net_push %d %s' % (info['fd'], S.aggr_response(rq, s2, KEY).hex()))
+            finished2[i] = 'valid'
+        elif o == 'err_status':
+            c('net_push %d %s' % (info['fd'], S.aggr_response(rq, None, KEY, status=0x101, errmsg='bad').hex()))
+            finished2[i] = 'failed'
+        elif o == 'err_pdu':
+            c('net_push %d %s' % (info['fd'], S.error_pdu('aggr', 2, KEY, status=0x300).hex()))
+            finished2[i] = 'failed'
+        elif o == 'close':
+            c('net_eof %d' % info['fd'])
+            finished2[i] = 'failed'
+        pump(2)
+    for i in accepting:
+        finished2.setdefault(i, 'failed')
+    ha.tick(12)
+    pump(3)
+    ha.tick(12)
+    pump(2 * nep + 4)
+    u2 = [x for x in returned if x[0] == 'u2']
+    r.observe(('cachefull', nep, tuple(sorted(silent)), tuple(sorted(r2_outcomes.items())), tuple(order), tuple((x[1], x[3]) for x in u2)))
+    r.count('ha_cachefull_scenarios')
+    if len(u2) != 1:
+        ha.viol('cachefull:request-returned-%d-times' % len(u2), 'R2 (forwarded to endpoint(s) %s only, endpoint(s) %s were full) handed back %d times; outcomes %s' % (
+            [a + 1 for a in accepting], [x + 1 for x in sorted(silent)], len(u2), r2_outcomes))
+    else:
+        tag, st, sg, herr, fin = u2[0]
+        valid_eps = [i for i in order if i in accepting and r2_outcomes.get(i) == 'valid']
+        if st == ST_RESP and (not valid_eps or sg != sigs.get(valid_eps[0])):
+            ha.viol('cachefull:wrong-response', 'R2 completed with a response that is not the first valid one')
+        if st == ST_ERR and valid_eps:
+            ha.viol('cachefull:error-although-valid-reply', 'R2 completed with error %#x although endpoint %d answered validly' % (herr, valid_eps[0] + 1))
+    c('async_free 0')
+
+
 FIELDS_AGGR = {'max_level': ('ml', [None, 0, 1, 2, 10, 19, 20, 21, 255, 2 ** 63], 1, 20, max),
                'aggr_period': ('ap', [None, 0, 99, 100, 101, 400, 19999, 20000, 20001, 2 ** 63], 100, 20000, min),
                'max_req': ('mr', [None, 0, 1, 2, 4, 15999, 16000, 16001, 2 ** 63], 1, 16000, max)}
@@ -263,6 +360,17 @@ def worker(job, r):
                     scenario_requests(sess, rng, r, nep, (outcomes, order), 'q%d' % k)
                     if k < 40:
                         r.sample(dict(endpoints=nep, outcomes=outcomes, arrival_order=[o + 1 for o in order]))
+        # one endpoint (or two) holds its only cache slot: the next request reaches the others only
+        for nep in (2, 3):
+            for nsil in range(1, nep):
+                for silent in itertools.combinations(range(nep), nsil):
+                    acc = [i for i in range(nep) if i not in silent]
+                    for outs in itertools.product(['valid', 'err_status', 'err_pdu', 'timeout', 'close'], repeat=len(acc)):
+                        for order in itertools.permutations(acc):
+                            k += 1
+                            if k % nshards != shard:
+                                continue
+                            scenario_cachefull(sess, rng, r, nep, set(silent), dict(zip(acc, outs)), order, 'f%d' % k)
     else:
         n = arg
         for ci in range(n):
@@ -298,7 +406,7 @@ def worker(job, r):
 def run(ctx):
     exe = kexec.build(ctx)
     ncfg = 40 if ctx.tier == 'quick' else 400
-    ctx.rule = ('requests: 1..3 simulated endpoints x ALL assignments of per-endpoint outcomes %s x ALL arrival orders for one user request (exhaustive: 6+72+1296 scenarios); the user request '
+    ctx.rule = ('cache-full: 2..3 endpoints with default cache size 1, every non-empty proper subset silent on request R1 (keeps its slot) while the rest answer; R2 then reaches the rest only, ALL outcome assignments x orders for them (175 scenarios): R2 returned exactly once, response = first valid, error only after all forwarded-to endpoints failed. requests: 1..3 simulated endpoints x ALL assignments of per-endpoint outcomes %s x ALL arrival orders for one user request (exhaustive: 6+72+1296 scenarios); the user request '
                 'must be returned exactly once, with the first valid response in arrival order, or with an error only after every endpoint has failed. configurations: random value sets per field '
                 'from {absent, 0, min-1, min, mid, max, max+1, 2^63} pushed by 2..3 endpoints in EVERY arrival order: the consolidated values delivered to the callback must equal the field-wise '
                 'reference and must not depend on the order; distinct = (endpoints, outcomes, order, result) / (kind, value sets, order)' % OUTCOMES)
@@ -309,5 +417,5 @@ def run(ctx):
     ctx.exhaustive = False
     c = ctx.counters
     if not ctx.violations and not ctx.known_printed:
-        ctx.require(c.get('ha_request_scenarios', 0) >= 1300 and c.get('ha_config_scenarios', 0) >= 100, 'scenarios executed')
+        ctx.require(c.get('ha_request_scenarios', 0) >= 1300 and c.get('ha_config_scenarios', 0) >= 100 and c.get('ha_partial_forward_scenarios', 0) >= 100, 'scenarios executed')
         ctx.require(c.get('ha_returned_response', 0) > 300 and c.get('ha_returned_error', 0) > 100, 'both response and error completions observed')
